@@ -50,7 +50,12 @@ def build_streams(sysd, events):
     for g, (li, pid, tid) in enumerate(sysd.threads):
         name, procs, phy = sysd.looms[li]
         first_of_loom = all(t[0] != li for t in sysd.threads[:g])
-        s = Stream(loom=name, pid=pid, tid=tid, app_id=1 + pid % 7, require=sysd.require,
+        # `require_first_only`: only the first stream of the trace requires the models (a model is enabled
+        # for the whole trace as soon as one stream requires it); the others require the base model alone
+        req = sysd.require
+        if getattr(sysd, "require_first_only", False) and g > 0:
+            req = {k: v for k, v in sysd.require.items() if k == "ovni"}
+        s = Stream(loom=name, pid=pid, tid=tid, app_id=1 + pid % 7, require=req,
                    cpus=[(i, p) for i, p in enumerate(phy)] if first_of_loom else None)
         streams.append(s)
     for ev in events:
